@@ -212,8 +212,15 @@ def gen_rereg(rng, i):
 def chk_rereg(inp, c):
     """The fit uses the CURRENTLY registered system: fit, change one registration on the same estimator, fit again."""
     arg = {"l2": "l2", "none": None, "min": "min", "max": "max", "var": "var"}.get(inp["opt"], inp["val"])
+    def retarget(t, rr):
+        # the property is about in-gamut targets: draw them from the gamut of the system registered NOW
+        Mt, c0, lbv, ubv = gen.sys_arrays(t)
+        t["B"] = gen.interior_x(rr, lbv, ubv, len(inp["B"]), margin=0.1) @ Mt.T + c0
+        if inp["opt"] == "vector":
+            t["val"] = rr.uniform(lbv, ubv) + (rr.random(len(lbv)) < 0.4) * rr.normal(0, 1, len(lbv)) * (ubv - lbv)
+
     gen.rereg_check(c, dreye, inp, lambda est: est.fit_underdetermined(inp["B"], underdetermined_opt=arg, l2_eps=inp["l2_eps"]),
-                    chk_case)
+                    chk_case, retarget=retarget)
 
 
 M.add("secondary_goal_after_reregistration", gen_rereg, chk_rereg, weight=1, min_held=20)
